@@ -117,12 +117,23 @@ def replay(case):
 
 
 def _mutations(draw, s, rows):
-    kind = draw(st.sampled_from(["chg", "chg", "drop", "add", "swap-human", "near-bin", "len+1", "len-1", "resum"]))
+    kind = draw(st.sampled_from(["chg", "chg", "drop", "add", "swap-human", "near-bin", "len+1", "len-1", "resum", "pad", "pad"]))
     raw = rc.b58check_decode(s)
     if kind == "chg":
         i = draw(st.integers(0, len(s) - 1))
         c = draw(st.sampled_from(rc.ALPHABET + "0OIl"))
         return kind, s[:i] + c + s[i + 1:]
+    if kind == "pad":  # characters outside the base58 alphabet (whitespace first) around / inside a valid encoding
+        junk = draw(st.sampled_from([" ", "\n", "\t", "\r\n", "\x00", "  ", "\x0b", "\x0c", "\u00a0", "0", "_", "=", "\u2003"]))
+        where = draw(st.sampled_from(["end", "end", "start", "both", "mid"]))
+        if where == "end":
+            return kind, s + junk
+        if where == "start":
+            return kind, junk + s
+        if where == "both":
+            return kind, junk + s + junk
+        i = draw(st.integers(1, len(s) - 1))
+        return kind, s[:i] + junk + s[i:]
     if kind == "drop":
         i = draw(st.integers(0, len(s) - 1))
         return kind, s[:i] + s[i + 1:]
